@@ -266,3 +266,52 @@ Proof.
   pose proof (subtree_keys (split_slash q "") t "." (D false kids) Hn Hso Hsegs Hsne Hr eq_refl) as Hf.
   rewrite (jpath_split q Hqe Hv) in Hf. rewrite Hf. reflexivity.
 Qed.
+
+(* ---------- following the markers of a folder listing: every entry of the folder once, in order *)
+Fixpoint fwpages (t : tree) (P m : string) (max fuel : nat) : list string * list string :=
+  match fuel with
+  | O => ([], [])
+  | S f => match walk t P "/" m max [] true with
+           | Some r => let rest := if r_trunc r then fwpages t P (r_next r) max f else ([], []) in
+                       ((r_objs r ++ fst rest)%list, (r_cps r ++ snd rest)%list)
+           | None => ([], [])
+           end
+  end.
+
+Theorem folder_pages_all : forall t q kids max fuel,
+  q <> "." -> q <> "" ->
+  forallb valid_seg (split_slash q "") = true -> resolve t (split_slash q "") = Some (D false kids) ->
+  kids <> [] -> kids_ok kids -> folder_keyed q kids -> sorted_b (map fst (nodes_at q (D false kids))) = true ->
+  0 < max -> List.length kids < fuel ->
+  let E := entries_after (keys_at q (D false kids)) (q ++ "/") "/" "" in
+  fwpages t (q ++ "/") "" max fuel = (objs_of E, cps_of E).
+Proof.
+  intros t q kids max fuel Hq Hqe Hv Hr Hne Hk Hdk Hs Hmax Hf. cbv zeta.
+  set (P := q ++ "/"). set (K := keys_at q (D false kids)). set (E := entries_after K P "/" "").
+  assert (Hsn : sorted_b (map fst (fnodes q kids)) = true).
+  { rewrite (nodes_folder q Hq) in Hs. cbn [map fst] in Hs. eapply sorted_tail. exact Hs. }
+  assert (Hspec : forall m, entries_after K P "/" m = Es m (String.eqb m "") (map (ptnode P) kids)).
+  { intros m. unfold K. rewrite (keys_folder q Hq). apply (spec_entries_P m q Hq kids Hk Hdk Hsn). }
+  assert (HE : E = Es "" true (map (ptnode P) kids)) by (unfold E; rewrite Hspec; reflexivity).
+  assert (Hes : forall m, entries_after K P "/" m = filter (egt m) E).
+  { intros m. unfold E. rewrite !Hspec. rewrite <- (after_entries m (map (ptnode P) kids)). change (String.eqb "" "") with true. unfold Es.
+    assert (Hall : filter (elig "" true) (map (ptnode P) kids) = filter keyed (map (ptnode P) kids)).
+    { apply filter_ext. intros e. unfold elig. cbn [orb]. apply andb_true_r. }
+    rewrite Hall. reflexivity. }
+  assert (Hts : sorted_b (map fst (map (ptnode P) kids)) = true) by (apply top_sorted_P; assumption).
+  assert (Hwp : forall f m, fwpages t P m max f = (objs_of (epages E m max f), cps_of (epages E m max f))).
+  { induction f as [|f IH]; intros m; cbn [fwpages epages]; [reflexivity|].
+    unfold P. rewrite (folder_walk t q kids m max Hq Hqe Hv Hr Hne Hk Hdk Hs). fold P. fold K.
+    unfold s3_list. rewrite Hes. cbv zeta. cbn [r_objs r_cps r_trunc r_next].
+    replace (negb (Nat.eqb max 0)) with true by (symmetry; apply negb_true_iff; apply Nat.eqb_neq; lia). rewrite andb_true_r.
+    rewrite objs_of_app, cps_of_app.
+    destruct (Nat.ltb max (List.length (filter (egt m) E))); [rewrite IH|]; reflexivity. }
+  rewrite Hwp. rewrite (epages_all E max).
+  - rewrite filter_all_in by (intros; reflexivity). reflexivity.
+  - rewrite HE. apply Es_sorted. exact Hts.
+  - intros e He. rewrite HE in He. unfold Es in He. apply in_map_iff in He. destruct He as [x [Hx Hin]]. subst e.
+    rewrite etext_to_entry. apply filter_In in Hin. eapply tn_nonempty_P; [exact Hq|apply Hin].
+  - exact Hmax.
+  - rewrite filter_all_in by (intros; reflexivity). rewrite HE. unfold Es. rewrite map_length.
+    pose proof (filter_len (elig "" true) (map (ptnode P) kids)) as Hl. rewrite map_length in Hl. lia.
+Qed.
